@@ -127,6 +127,16 @@ class Rec:
             self.refute(ctx, True, label + " (real code raised)", vf)
             raise symx.PathAbort()
 
+    def guard_harness(self, fn, label, viol0):
+        """wrap a whole harness in `guarded`; viol0(m) must build the violation record from state the harness
+        publishes as it goes (e.g. a dict filled right after the symbolic inputs are created)"""
+
+        def h(ctx, *a, **k):
+            with self.guarded(ctx, label, viol0):
+                return fn(ctx, *a, **k)
+
+        return h
+
     def refute_identity(self, ctx, bad, label, viol_fn=None):
         """Like refute, but first tries to discharge `bad` WITHOUT the path
         condition (a universally valid identity holds on every path); falls
